@@ -597,4 +597,48 @@ theorem attinv_step_lock (g : G) (t : Tid) (intr : Bool) (hid : Hid) (m : PShm) 
     · obtain ⟨a, att, e1, e2, e3⟩ := hinv.1
       exact ⟨a, att, e1, e2, e3⟩
 
+theorem shm_next_procs (p : Pid) (intr : Bool) (s : ShmSt) (os : OS) (nm : Nat) (h1 : s.pc ≠ .cAt) (h2 : s.pc ≠ .kDt) :
+    (sysStep p intr s.next os nm).1.procs = os.procs := by
+  obtain ⟨isNew, h, req, pc, built, isExists, failing⟩ := s
+  cases pc with
+  | cAt => exact absurd rfl h1
+  | kDt => exact absurd rfl h2
+  | cSem st => simpa [ShmSt.next] using sem_next_procs p intr st os nm
+  | kSem st => simpa [ShmSt.next] using sem_next_procs p intr st os nm
+  | _ => all_goals (apply sysStep_procs <;> intros <;> simp [ShmSt.next])
+
+theorem attinv_step_new (g : G) (t : Tid) (intr : Bool) (hid : Hid) (s : ShmSt) (hi : AttInv g)
+    (hc : g.calls t = some (.shmNew hid s)) : AttInv (g.step t intr) := by
+  by_cases h1 : s.pc = .cAt
+  · exact attinv_step_shmat g t intr hid s hi hc h1
+  · by_cases h2 : s.pc = .kDt
+    · have hinv := hi.calls t _ hc
+      obtain ⟨isNew, h, req, pc, built, isExists, failing⟩ := s
+      simp only at h2
+      subst h2
+      simp only [Call.ainv] at hinv
+      refine attinv_step_shmdt g t intr _ (.shmNew hid ⟨isNew, h, req, .kStat, built, isExists, failing⟩) ⟨isNew, h, req, .kDt, built, isExists, failing⟩ hi hc rfl hinv.2 ?_ ?_
+      · simp [Call.after, ShmSt.after]
+      · intro pr; simp only [Call.ainv]; exact hinv.1
+    · have hproc := shm_next_procs (g.pidOf t) intr s g.os s.h.name h1 h2
+      have hout := shmNew_after_ainv (g.os.procs (g.pidOf t)) g.hs (g.pidOf t) hid s (sysStep (g.pidOf t) intr s.next g.os s.h.name).2
+        (hs_at g hi _) (hi.calls t _ hc) h1 h2
+      cases hr : s.after (sysStep (g.pidOf t) intr s.next g.os s.h.name).2 with
+      | cont s' =>
+        rw [hr] at hout
+        refine attinv_step_plain g t intr _ hi hc hproc ?_
+        simp only [Call.next, Call.name, Call.after, hr]
+        exact hout
+      | done x =>
+        obtain ⟨h, e⟩ := x
+        rw [hr] at hout
+        cases e with
+        | error e =>
+          refine attinv_step_plain g t intr _ hi hc hproc ?_
+          simp only [Call.next, Call.name, Call.after, hr]
+        | ok u =>
+          refine attinv_step_store g t intr _ hid h (.shm h) hi hc hproc ?_ hout.1 ?_
+          · simp only [Call.next, Call.name, Call.after, hr]
+          · intro h' m' hm' _; exact hout.2 h' m' hm' (by simp)
+
 end PV.SysV
